@@ -21,6 +21,8 @@ namespace C13
 
 open Ksp SearchTree
 
+set_option linter.unusedSectionVars false
+
 variable {α : Type} [Field α] [LinearOrder α] [IsStrictOrderedRing α] [Lit α] [LawfulLit α]
 
 /-! ## `KspTerminationCriteria::terminate_search`, as coded -/
@@ -295,6 +297,91 @@ theorem single_via_failures {c : Config α} {g : List α} (hf : c.fwd.AdjConsist
     e = .scheduleExhausted ∨ e = .badSchedule ∨
     (∃ e' prev st, edgeTraversal c.fwd e' prev st = .error e) ∨ (∃ a b, sim a b = .error e) :=
   singleVia_error hf hr hts h
+
+/-! ### Non-vacuity (single-via): the diamond `0 → {1, 2} → 3`, Dijkstra, k = 2.  The hypotheses hold,
+the run succeeds with two routes, and the theorems above apply to it.  (Also the witness of the
+repaired `AcceptAll` defect: before the repair the similarity test was constantly `true`, which is
+the second run below — one route.) -/
+
+example : Example.diamond.fwd.AdjConsistent ∧ (Example.diamond.rev []).AdjConsistent :=
+  Example.diamond_adj
+
+example : Example.idsOf (singleVia Example.diamond (List.replicate 4 0) simAcceptAll .exact 0 3 2
+    [0, 1, 3] [3, 1, 0] [1, 2]) = .ok [[0, 1], [2, 3]] := Example.diamond_accept_all
+
+example : Example.idsOf (singleVia Example.diamond (List.replicate 4 0) (fun _ _ => .ok true) .exact
+    0 3 2 [0, 1, 3] [3, 1, 0] [1, 2]) = .ok [[0, 1]] := Example.diamond_reject_all
+
+example : ∃ rA rT, singleVia Example.diamond (List.replicate 4 0) simAcceptAll .exact 0 3 2
+      [0, 1, 3] [3, 1, 0] [1, 2] = .ok rA ∧
+    singleVia Example.diamond (List.replicate 4 0) (fun _ _ => .ok true) .exact 0 3 2
+      [0, 1, 3] [3, 1, 0] [1, 2] = .ok rT ∧ rT.routes.length ≤ rA.routes.length ∧
+    rA.routes.length ≤ 2 ∧ 1 ≤ rT.routes.length := by
+  obtain ⟨rA, hA, _⟩ := Example.ok_of_idsOf Example.diamond_accept_all
+  obtain ⟨rT, hT, _⟩ := Example.ok_of_idsOf Example.diamond_reject_all
+  exact ⟨rA, rT, hA, hT, accept_all_at_least_as_many hA hT, (single_via_count hA).1,
+    (single_via_count hT).2 (by decide)⟩
+
+/-! ## Defects of single-via found on the way (each reproduced on the real code by the harness) -/
+
+/-- what IS true about restrictions: every element of the first route, and of the forward half of
+every alternative, is an entry of the forward tree, hence (C04, `SearchRoute.runAStar_validInv`) was
+accepted by the frontier model against the state and previous edge its parent carried.  Nothing of
+the kind holds for the re-traversed reverse half or for the junction turn: -/
+theorem single_via_forward_entries_valid_partial {c : Config α} {g : List α}
+    (hf : c.fwd.AdjConsistent) (hr : (c.rev g).AdjConsistent)
+    {sim : List Nat → List Nat → Except ErrKind Bool} {term : KspTerm} {source target k : Nat}
+    (hts : target ≠ source) {fs rs pops : List Nat} {r : AlgResult α}
+    (h : singleVia c g sim term source target k fs rs pops = .ok r) :
+    ∀ route ∈ r.routes.tail, ∃ fwdRoute revRoute, route = fwdRoute ++ revRoute ∧
+      ∀ b ∈ fwdRoute, SearchRoute.EntryOK c.fwd.inst b := by
+  obtain ⟨fres, h1, hall⟩ := single_via_alternative_state hf hr hts h
+  have hv := SearchRoute.runAStar_validInv _ _ _ _ _ (SearchRoute.runVertexOriented_some h1).1
+  intro route hroute
+  obtain ⟨v, fr, rr, e1, _, _, _, hent, _⟩ := hall route hroute
+  refine ⟨fr, rr, e1, ?_⟩
+  intro b hb
+  obtain ⟨u, hu⟩ := hent b hb
+  exact hv u b hu
+
+/-- FULL STATEMENT (false of the code): "no returned route takes a turn listed by the
+turn-restriction model".  Witness: `0 -e0→ 1 -e1→ 4`, `0 -e2→ 2 -e3→ 3 -e4→ 4` with the turn
+(e3, e4) restricted.  Single-via (Dijkstra, AcceptAll, k = 2) returns the alternative
+`[e2, e3, e4]`: the reverse search from 4 submitted the pair to the model as (e4, e3) — later edge
+first — and the re-traversal never asks the frontier model.  The plain search refuses that turn:
+on the same network without the short branch it reports "no path". -/
+theorem single_via_restricted_turn_counterexample :
+    ∃ (c : Config ℚ) (r : AlgResult ℚ),
+      c.fwd.AdjConsistent ∧ (c.rev []).AdjConsistent ∧
+      c.frontier = [.turnRestriction [(3, 4)]] ∧
+      singleVia c (List.replicate 5 0) simAcceptAll .exact 0 4 2 [0, 1, 2, 4] [4, 1, 3, 0] [1, 2] = .ok r ∧
+      (∃ route ∈ r.routes, [3, 4] <:+: route.map (·.edge)) ∧
+      Example.idsOf (Example.restrictedTurnOnly.runVertex 0 (some 4) [0, 2, 3]) = .error .noPath := by
+  obtain ⟨r, hr, hids⟩ := Example.ok_of_idsOf Example.restrictedTurn_singleVia
+  refine ⟨Example.restrictedTurn, r, Example.restrictedTurn_adj.1, Example.restrictedTurn_adj.2, rfl,
+    hr, ?_, Example.restrictedTurn_plain⟩
+  have hmem : [2, 3, 4] ∈ r.routes.map (·.map (·.edge)) := by rw [hids]; simp
+  obtain ⟨route, hroute, hre⟩ := List.mem_map.1 hmem
+  exact ⟨route, hroute, by rw [hre]; exact ⟨[2], [], rfl⟩⟩
+
+/-- FULL STATEMENT (false of the code): "a query the underlying search answers is not turned into
+an error".  `single_via_failures` is the partial result: besides the first search only the reverse
+search, the re-traversal and the similarity function can fail — and the reverse search does, with
+"no path", on `0 -e0→ 1 -e1→ 2` when the (untakeable) pair (e1, e0) is listed as a restricted turn:
+searching backwards it meets e0 with "previous" edge e1.  (The same propagation turns a limit of
+the termination model hit only by the reverse search into a failed query.) -/
+theorem single_via_reverse_failure_counterexample :
+    ∃ (c : Config ℚ), c.fwd.AdjConsistent ∧ (c.rev []).AdjConsistent ∧
+      Example.idsOf (c.fwd.runVertex 0 (some 2) [0, 1, 2]) = .ok [[0, 1]] ∧
+      Example.idsOf (singleVia c (List.replicate 3 0) simAcceptAll .exact 0 2 2 [0, 1, 2] [2, 1] []) =
+        .error .noPath := by
+  refine ⟨Example.reversedPair, ?_, ?_, Example.reversedPair_plain, Example.reversedPair_singleVia⟩
+  · apply Example.adj_of_lists
+    · decide +kernel
+    · decide
+  · apply Example.adj_of_lists
+    · decide +kernel
+    · decide
 
 end C13
 end Compass
